@@ -365,6 +365,10 @@ S('st_send_stored_limit_v5', {'C14': 'quick', 'C06': 'thorough', 'C08': 'thoroug
 for _n, _d in (('pubrel', 'PUBREL (4 bytes)'), ('publish', 'QoS1 PUBLISH (9 bytes)')):
     S('st_send_stored_limit_v5_' + _n, {}, stubs=(_st if _n == 'publish' else []), est=600, mem='L',
       bounds='send_stored() with one stored v5.0 %s under a peer limit L over all u32 >= 1, id over all u16 >= 1' % _d, symbolic='L, k', encodes=['send_stored', 'GenericStore::for_each'])
+for _n in ('q1', 'q2'):
+    S('st_erase_stored_one_v5_' + _n, {}, stubs=_st, est=400, mem='L',
+      bounds='erase_stored_publish(i) on a connected v5.0 client whose store holds one %s PUBLISH(i); i over all u16 >= 1, Receive Maximum M and the in-flight count (1..=M) over all u16' % _n.upper().replace('Q', 'QoS'), symbolic='i, M, count',
+      encodes=['erase_stored_publish', 'GenericStore::erase_publish'])
 for _k, _t in (('puback_props127', 'thorough'), ('puback_props128', 'opt'), ('pubrec_props128', 'opt'), ('pubrel_props128', 'opt'), ('pubcomp_props128', 'opt')):
     K('c02_v5_' + _k, {'C02': _t, 'C03': 'thorough'}, est=600, timeout=3600, stubs=_st, mem='XL',
       bounds='v5.0 %s with reason code and one Reason String so that the property section is %s bytes (Property Length field one/two bytes); id, first and last string byte symbolic' % (_k.split('_')[0].upper(), _k[-3:]),
@@ -430,10 +434,10 @@ _MEM = {
           'c14_total_size_kernel', 'st_handled_export_restore'],
     'M': ['st_recv_connect_v5_server', 'st_recv_connect_v311_server', 'st_send_puback_v5_limit', 'st_send_pubrec_v5_handled', 'st_reuse_client_v311_clean_connect',
           'st_send_publish_v5_automap_limit', 'st_recv_publish_q2_v311', 'st_send_publish_v311_q1_persistent',
-          'st_restore_one_v311_publish_q1', 'st_restore_one_v311_publish_q2', 'st_restore_one_v311_pubrel', 'st_restore_one_v5_pubrel', 'st_restore_one_v5_publish_q2', 'st_recv_connect_v5_server'],
+          'st_restore_one_v311_publish_q1', 'st_restore_one_v311_publish_q2', 'st_restore_one_v311_pubrel', 'st_restore_one_v5_pubrel', 'st_restore_one_v5_publish_q2', 'st_recv_connect_v5_server', 'st_erase_stored_one_v5_q1', 'st_erase_stored_one_v5_q2'],
     'L': ['st_notify_closed_any', 'st_id_calls_total', 'st_recv_puback_v5_flow', 'st_send_publish_v311_never_dropped', 'st_recv_puback_v311_persistent',
           'st_send_publish_v5_limit', 'st_recv_connect_v5_server_tam'],
-    'XL': ['st_send_publish_v5_flow', 'st_send_publish_v5_limit', 'st_erase_stored_publish_v5', 'st_send_stored_limit_v5', 'st_recv_pubcomp_flow', 'st_recv_pubrec_v5_flow', 'st_dispatch_client_v311', 'st_dispatch_server_v311', 'st_dispatch_client_v5', 'st_dispatch_server_v5', 'st_undetermined_first_packet', 'st_recv_publish_v5_alias',
+    'XL': ['st_send_publish_v5_manual_alias_rebind1', 'st_send_publish_v5_flow', 'st_send_publish_v5_limit', 'st_send_stored_limit_v5', 'st_recv_pubcomp_flow', 'st_recv_pubrec_v5_flow', 'st_dispatch_client_v311', 'st_dispatch_server_v311', 'st_dispatch_client_v5', 'st_dispatch_server_v5', 'st_undetermined_first_packet', 'st_recv_publish_v5_alias',
            'st_recv_publish_v5_recv_max', 'st_send_connack_v5_resume_count', 'st_send_publish_v5_alias_resolve', 'st_send_publish_v5_manual_alias_bind'],
 }
 _known = set(x for v in _MEM.values() for x in v)
@@ -466,7 +470,7 @@ QUICK = {
             'c09_f2_s1_three_frames', 'c09_f2_s3_four_byte_len', 'st_recv_two_packets_one_buffer'],
     'C10': ['st_notify_closed_any', 'st_recv_connect_v311_server', 'st_recv_connect_v5_server'],
     'C11': ['c11_const_table', 'c11_cell_any_v311_connect', 'c11_cell_server_v5_pubrec'],
-    'C12': ['c12_vacancy_kernel', 'st_send_pubrec_v5_handled'],
+    'C12': ['c12_vacancy_kernel', 'st_send_pubrec_v5_handled', 'st_erase_stored_one_v5_q1', 'st_erase_stored_one_v5_q2'],
     'C13': ['c13_alias_send_clear', 'c13_alias_recv_hist2', 'st_send_publish_v5_automap_limit', 'st_notify_closed_any'],
     'C14': ['c14_total_size_kernel', 'c09_f1_header_value', 'st_send_puback_v5_limit', 'st_send_publish_v5_automap_limit', 'st_recv_packet_too_large'],
     'C15': ['st_send_pingreq_v5_client', 'st_send_disconnect_v311_client', 'st_timer_fired_server_pingreq_recv', 'st_recv_connect_v311_server', 'st_recv_pingresp_client', 'st_notify_closed_any'],
@@ -487,18 +491,18 @@ THOROUGH_EXTRA = {
     'C04': [h['name'] for h in HARNESSES if h['name'].startswith('c04_')] + ['st_recv_publish_q2_v311'],
     'C05': ['st_recv_publish_q2_v311', 'st_recv_connect_v5_server', 'c09_f3_overlong_rl_cut1', 'c09_f3_overlong_rl_cut3', 'c09_f3_overlong_rl_cut4', 'st_recv_connect_v5_server_tam', 'st_dispatch_client_v311', 'st_dispatch_server_v311',
             'st_recv_framing_error_v311', 'st_recv_puback_v311_persistent'],
-    'C06': ['st_send_pubrel_states_v311', 'st_send_publish_v311_never_dropped', 'st_recv_puback_v5_flow', 'st_recv_pubcomp_flow', 'st_notify_closed_any', 'st_recv_pubrec_v5_flow', 'st_recv_connack_v311_resume', 'st_erase_stored_publish_v5'],
+    'C06': ['st_send_pubrel_states_v311', 'st_send_publish_v311_never_dropped', 'st_recv_puback_v5_flow', 'st_recv_pubcomp_flow', 'st_notify_closed_any', 'st_recv_pubrec_v5_flow'],
     'C07': ['st_recv_publish_q2_v311', 'st_reuse_client_v311_clean_connect', 'st_recv_pubrel_flow', 'st_notify_closed_any'],
     'C08': ['c20_step_u16_n3', 'st_recv_puback_v5_flow', 'st_recv_pubcomp_flow', 'st_send_publish_v311_never_dropped', 'st_recv_unsuback_v5', 'st_recv_suback_v311', 'st_recv_suback_v5',
-            'st_recv_unsuback_v311', 'st_send_publish_v5_flow', 'st_send_publish_v5_limit', 'st_recv_pubrec_v5_flow', 'st_erase_stored_publish_v5', 'st_recv_connack_v311_resume'],
+            'st_recv_unsuback_v311', 'st_send_publish_v5_flow', 'st_send_publish_v5_limit', 'st_recv_pubrec_v5_flow'],
     'C09': ['c09_f2_s2_nonminimal', 'c09_f2_s5_partial_tail', 'c09_f2_s6_three_byte_len', 'st_recv_framing_error_v311', 'st_recv_framing_error_v5'],
     'C10': ['st_reuse_client_v311_clean_connect', 'st_recv_connect_v5_server'],
     'C11': ['c11_const_table'] + ['c11_cell_' + _c for _c in C11_DECIDED] + ['st_send_publish_v311_never_dropped', 'st_send_pubrel_states_v311'],
-    'C12': ['st_recv_puback_v5_flow', 'st_recv_pubcomp_flow', 'st_recv_pubrec_v5_flow', 'st_send_publish_v5_flow', 'st_erase_stored_publish_v5'],
+    'C12': ['st_recv_puback_v5_flow', 'st_recv_pubcomp_flow', 'st_recv_pubrec_v5_flow', 'st_send_publish_v5_flow'],
     'C13': ['st_recv_connect_v5_server_tam', 'st_send_publish_v5_manual_alias_rebind1'],
     'C14': ['st_send_publish_v5_limit'],
     'C15': ['st_send_pubrel_states_v311', 'st_send_pingreq_v311_client', 'st_send_disconnect_v5_server', 'st_timer_fired_v311_client', 'st_timer_fired_v5_client_pingresp', 'st_recv_connect_v5_server'],
-    'C16': ['st_recv_connack_v311_resume'],
+    'C16': [],
     'C17': ['st_dispatch_client_v311', 'st_dispatch_server_v311', 'st_recv_connect_v311_server', 'st_recv_connect_v5_server', 'st_recv_connack_while_connected_v5'],
     'C18': [],
     'C19': ['st_timer_fired_v5_client_pingresp', 'st_timer_fired_server_pingreq_recv', 'st_recv_framing_error_v311', 'st_recv_puback_v311_persistent', 'st_send_pingreq_v311_client', 'st_recv_puback_v5_flow'],
@@ -522,6 +526,8 @@ for _p, _names in THOROUGH_EXTRA.items():
 # Written and compiled on every run, but not decided within the memory / time limits of this sandbox (measured);
 # they are *outside the claim* (DESIGN 10.5) and can be run with `bin/check DEV --only <name>`.
 EXPERIMENTAL = {
+    'st_recv_connack_v311_resume': 'time-out 50 min at 19 GB (class XL)',
+    'st_erase_stored_publish_v5': '> 28 GB after 31 min (class XL)',
     'st_send_stored_limit_v5': 'time-out 50 min at 20 GB (class XL)', 'st_send_stored_limit_v5_pubrel': '> 12 GB after 18 min (one stored packet)', 'st_send_stored_limit_v5_publish': 'like the PUBREL form',
     'st_restore_pair_v311_q1': '> 28 GB', 'st_restore_pair_v311_q2': '> 28 GB', 'st_restore_pair_v5_q1': '> 28 GB', 'st_restore_pair_v5_q2': '> 28 GB (superseded by st_restore_one_*)',
     'st_restore_packets_v311': '> 8 GB (three packets; the two-packet forms exceed 28 GB)', 'st_restore_packets_v5': 'like v3.1.1', 'st_restore_packets_duplicate_id': '> 8 GB',
